@@ -32,7 +32,7 @@ def gen(rng, n):
             s.calls = R.gen_calls(rng, R.unlimited(s), s.start)
         if c > 0.35:
             s.sched = R.gen_schedule(rng, s, ext=rng.random() < 0.6)
-        yield s.encode()
+        yield R.add_concurrent_build(rng, s, 0.06).encode()
 
 
 def exhaustive():
